@@ -40,13 +40,31 @@ def worker(n, seed, bc, public):
     return json.load(open(out))
 
 
+def public_interpreted():
+    """the degenerate and precondition-probing public calls with every numba dispatcher replaced by its .py_func (own process)"""
+    out = os.path.join(C.CACHE, "c15_public_pyfunc.json")
+    env = dict(os.environ)
+    env["NUMBA_CACHE_DIR"] = os.path.join(C.HOME, ".cache", "numba-jit")
+    env["PYTHONPATH"] = C.REPO
+    env.pop("NUMBA_BOUNDSCHECK", None)
+    if os.path.exists(out):
+        os.remove(out)
+    p = subprocess.run(["/venv/bin/python", "-W", "ignore", os.path.join(C.HOME, "harness", "c15_public.py"), out, "pyfunc"], env=env, stdout=subprocess.PIPE,
+                       stderr=subprocess.STDOUT, text=True, timeout=1500)
+    if p.returncode != 0 or not os.path.exists(out):
+        raise RuntimeError("c15 interpreted public calls failed: " + p.stdout[-800:])
+    return json.load(open(out))
+
+
 def run(res, tier, seed):
     n = 250 if tier == "quick" else 2500
     res.rule = ("for each of the translated kernels: %d distinct seeded argument tuples satisfying the public-call precondition, sizes 0-4 per array on a binary lattice (empty series, single "
                 "sample, duplicates, empty IntervalSet, epochs before/after/between the samples), executed FOUR ways: compiled, compiled with NUMBA_BOUNDSCHECK=1 (own cache), .py_func, and the "
-                "translated Jit.Lang term in the extracted checked interpreter; all four must agree and none may report an out-of-bounds access or an unassigned read; plus 30 degenerate PUBLIC "
-                "calls under bounds checking. non-trivial = a case with at least one array of size 0 or 1; distinct = (kernel, arguments)" % n)
+                "translated Jit.Lang term in the extracted checked interpreter; all four must agree and none may report an out-of-bounds access or an unassigned read; plus ~37 degenerate PUBLIC "
+                "calls under bounds checking, and those plus 10 precondition probes (method / mode strings the wrappers must reject before a kernel sees them) with every kernel replaced "
+                "by its interpreted twin, where an unassigned local or an index past the end raises. non-trivial = a case with at least one array of size 0 or 1; distinct = (kernel, arguments)" % n)
     meta = json.load(open(os.path.join(C.COQ, "Gen", "kernels.json")))
+    pyf = public_interpreted()
     plain = worker(n, seed, False, False)
     bc = worker(n, seed, True, True)
     not_proved, hashes = [], {}
@@ -76,13 +94,21 @@ def run(res, tier, seed):
     for pc in bc["public"]:
         res.evaluations += 1
         res.count("public:" + pc["outcome"].split()[0])
-        if pc["outcome"] == "IndexError":
+        if pc["outcome"] in ("IndexError", "UnboundLocalError"):
             res.violations.append({"key": {"op": "public", "part": "IndexError_under_boundscheck", "call": pc["call"]},
-                                   "what": "public call %s raises IndexError when the kernels are compiled with bounds checking: %s" % (pc["call"], pc.get("msg")), "input": {"call": pc["call"]}})
+                                   "what": "public call %s raises %s when the kernels are compiled with bounds checking: %s" % (pc["call"], pc["outcome"], pc.get("msg")), "input": {"call": pc["call"]}})
+    for pc in pyf["public"]:
+        res.evaluations += 1
+        res.count("public_interpreted:" + pc["outcome"].split()[0])
+        if pc["outcome"] in ("IndexError", "UnboundLocalError"):
+            res.violations.append({"key": {"op": "public", "part": "unsafe_when_interpreted", "call": pc["call"], "exception": pc["outcome"]},
+                                   "what": "public call %s: with every kernel replaced by its interpreted twin (.py_func) the call raises %s: %s - a kernel is entered outside the "
+                                           "precondition its safety theorem assumes" % (pc["call"], pc["outcome"], pc.get("msg")), "input": {"call": pc["call"], "mode": "py_func"}})
     res.extra["kernel_source_hashes"] = hashes
     res.extra["proved_safe"] = sorted(PROVED)
     res.extra["checked_not_proved"] = not_proved
     res.extra["public_calls_under_boundscheck"] = bc["public"]
+    res.extra["public_calls_interpreted"] = pyf["public"]
 
 
 def search(res, seed):
